@@ -87,9 +87,9 @@ CHECKS["C17"] = dict(
 )
 
 CHECKS["C18"] = dict(
-    parts=[dict(pkg="codec", run="^TestC18_")], level="exploration",
-    quick=dict(shards=4, checks=400, timeout=600),
-    thorough=dict(shards=8, checks=1500, timeout=2400, race=True),
+    parts=[dict(pkg="codec", run="^TestC18_"), dict(pkg="net", run="^TestC18_|^TestC03_Delivery$")], level="exploration",
+    quick=dict(shards=4, checks=400, timeout=600, env=dict(VERIF_C18="1")),
+    thorough=dict(shards=6, checks=160, timeout=3000, race=True, env=dict(VERIF_C18="1")),
     assumptions=[
         "a data race is only observed if it occurs in an execution (thorough tier, -race build)",
     ],
